@@ -6,6 +6,7 @@
   `SecurityCheckList` literal the router templates pass to `authorize()`), `effectiveSecurity`
   (`ControllerMeta.Reduce` + `GetRouteSecurityWithInheritance` + `GetDefaultSecurity`).
 -/
+import Gleece.Properties.Reduce
 import Gleece.Model.IR
 namespace Gleece.IR
 
